@@ -244,3 +244,26 @@ m("c07-a64-postindex-ignored", ["C07"], "osaca/semantics/hw_model.py",
 m("c07-x86-imm-matches-any", ["C07"], "osaca/semantics/hw_model.py",
   '            return isinstance(i_operand, ImmediateOperand) and i_operand.imd_type == "int"',
   '            return not isinstance(i_operand, MemoryOperand)')
+
+# ---- C08
+m("c08-load-lat-wrong-type", ["C08"], "osaca/semantics/arch_semantics.py",
+  "                            self._machine_model.get_load_latency(reg_type)\n                            if INSTR_FLAGS.HAS_LD in instruction_form.flags",
+  "                            self._machine_model.get_load_latency(\"gpr\" if self._isa == \"x86\" else \"x\")\n                            if INSTR_FLAGS.HAS_LD in instruction_form.flags")
+m("c08-tp-sum", ["C08"], "osaca/semantics/arch_semantics.py",
+  "                            throughput = max(\n                                max(data_port_pressure), instruction_data_reg.throughput\n                            )",
+  "                            throughput = sum(\n                                [max(data_port_pressure), instruction_data_reg.throughput]\n                            )")
+m("c08-multiplier-twice", ["C08"], "osaca/semantics/arch_semantics.py",
+  "                                data_port_pressure = [pp * multiplier for pp in data_port_pressure]",
+  "                                data_port_pressure = [pp * multiplier * multiplier for pp in data_port_pressure]")
+m("c08-store-before-load-rows", ["C08"], "osaca/semantics/arch_semantics.py",
+  "                            data_port_uops = data_port_uops + st_data_port_uops",
+  "                            data_port_uops = st_data_port_uops")
+m("c08-unknown-keeps-pressure", ["C08"], "osaca/semantics/arch_semantics.py",
+  "                    instruction_form.port_pressure = [0.0 for i in range(port_number)]\n                    # instruction_formport_uops = []",
+  "                    instruction_form.port_pressure = [1.0 for i in range(port_number)]\n                    # instruction_formport_uops = []")
+m("c08-first-row-always", ["C08"], "osaca/semantics/hw_model.py",
+  "        ld_tp = [m for m in self._data[\"load_throughput\"] if self._match_mem_entries(memory, m[0])]",
+  "        ld_tp = [m for m in self._data[\"load_throughput\"]]")
+m("c08-inplace-extend", ["C08", "C18"], "osaca/semantics/arch_semantics.py",
+  "                            data_port_uops = data_port_uops + st_data_port_uops",
+  "                            data_port_uops += st_data_port_uops")
